@@ -501,6 +501,24 @@ def c16_case(rnd, cs, job, acc):
     if not m["acyclic"]:
         acc.count("skipped-cyclic")
         return
+    if not m["alap"] and rnd.random() < 0.35:
+        # task-level ALAP anchors inside an ASAP project: 'scheduling alap' + end on a leaf with predecessors (the engine
+        # switches the predecessors to backward mode - per scenario, since ends and pins can be scenario-specific;
+        # seeded change C16-d cached the walk of the first scenario)
+        cands = [t for t in m["tasks"] if not t["container"] and t.get("deps") and "start" not in t]
+        for t in rnd.sample(cands, min(len(cands), rnd.randint(1, 2))):
+            t["task_alap"] = True
+            t["end"] = m["start"] + timedelta(days=rnd.randint(4, 12), minutes=rnd.randrange(0, 24 * 60, m["res"]))
+            for d in t["deps"]:
+                d.pop("onstart", None)
+            acc.count("task-level-alap-anchors")
+        tm_ = gen.tmap(m)
+        for t in cands:
+            if t.get("task_alap"):
+                for d in t["deps"]:
+                    pt = tm_.get(d["to"])
+                    if pt and not pt["container"] and "start" not in pt and "end" not in pt and rnd.random() < 0.5:
+                        pt["start"] = m["start"] + timedelta(days=rnd.randint(0, 3), minutes=rnd.randrange(0, 24 * 60, m["res"]))   # a pinned ASAP predecessor
     tree = scen_tree(rnd)
     sids = [s for s, _ in tree]
     m_multi = copy.deepcopy(m)
@@ -516,6 +534,14 @@ def c16_case(rnd, cs, job, acc):
             n_over += 1
         if "end" in t and rnd.random() < 0.5:
             t["sc_end"] = {s: t["end"] - timedelta(days=rnd.randint(1, 2)) for s in rnd.sample(sids[1:], 1)}
+            n_over += 1
+        if "start" not in t and "end" not in t and not m["alap"] and "effort_min" in t and rnd.random() < 0.12:
+            # a pin that exists in ONE scenario only (no plain start at all)
+            t["sc_start"] = {rnd.choice(sids[1:]): m["start"] + timedelta(days=rnd.randint(0, 5), minutes=rnd.randrange(0, 24 * 60, m["res"]))}
+            n_over += 1
+        if t.get("task_alap") and rnd.random() < 0.4:
+            # ... and an ALAP anchor whose end exists in one scenario only
+            t["sc_end"] = {rnd.choice(sids[1:]): t.pop("end")}
             n_over += 1
         if rnd.random() < 0.35:
             t["sc_first"] = True      # the scenario-specific lines stand in front of the plain ones
@@ -533,8 +559,10 @@ def c16_case(rnd, cs, job, acc):
     bad = None
     hz = None
     for i, sid in enumerate(sids):
-        ms = copy.deepcopy(m)
+        ms = copy.deepcopy(m_multi)        # the plain attributes as written in the multi-scenario text ...
         for t, tmulti in zip(ms["tasks"], m_multi["tasks"]):
+            for key in ("sc_effort", "sc_start", "sc_end", "sc_first"):
+                t.pop(key, None)            # ... plus this scenario's effective overrides as plain attributes
             v = effective(tree, tmulti.get("sc_effort", {}), sid)
             if v is not None:
                 t["effort_min"] = v
